@@ -303,7 +303,7 @@ func (s String) CallAll(_ context.Context, arg Value, b SetBuilder) error {
 	if n, ok := arg.(Number); ok {
 		if i, is := n.Int(); is {
 			i -= s.offset
-			if 0 <= i && i < len(s.s) {
+			if 0 <= i && i < len(s.s) && s.s[i] >= 0 {
 				b.Add(NewNumber(float64(s.s[i])))
 			}
 		}
